@@ -79,6 +79,25 @@ func (c *VCtx) assertsFor(o *Obligation, seedAll bool) []*Term {
 		walk(o.Goal)
 	}
 	// candidate values per (hypothesis, variable)
+	qstat := map[int]int{}
+	defer func() {
+		if os.Getenv("SONICVC_QSTAT") != "" && strings.Contains(o.Name, os.Getenv("SONICVC_QSTAT")) {
+			fmt.Fprintf(os.Stderr, "QSTAT %s seedAll=%v asserts=%d\n", o.Name, seedAll, len(as))
+			for _, q := range c.qhyps[:o.NQ] {
+				if qstat[q.idx] > 0 {
+					fmt.Fprintf(os.Stderr, "  %5d  #%d %.150s\n", qstat[q.idx], q.idx, q.desc)
+				}
+			}
+		}
+	}()
+	// hypotheses assumed on a path that syntactically contradicts this obligation's path are
+	// vacuous here (their instances are guarded by that path condition): skip them
+	dead := map[int]bool{}
+	for _, q := range c.qhyps[:o.NQ] {
+		if q.pc != nil && !q.pc.IsTrue() && And(o.PC, q.pc).IsFalse() {
+			dead[q.idx] = true
+		}
+	}
 	cands := map[[2]int][]*Term{}
 	candSeen := map[[3]int]bool{}
 	total := 0
@@ -88,6 +107,9 @@ func (c *VCtx) assertsFor(o *Obligation, seedAll bool) []*Term {
 		var added []*Term
 		for _, r := range cur {
 			for _, q := range c.qhyps[:o.NQ] {
+				if dead[q.idx] {
+					continue
+				}
 				for vi, qts := range q.trigs {
 					for _, qt := range qts {
 						if !famMatches(qt.family, r.fam) {
@@ -103,6 +125,7 @@ func (c *VCtx) assertsFor(o *Obligation, seedAll bool) []*Term {
 						if q.nvars == 1 {
 							if inst := q.instance([]*Term{j}); !inst.IsTrue() {
 								added = append(added, inst)
+								qstat[q.idx]++
 							}
 							continue
 						}
@@ -118,6 +141,7 @@ func (c *VCtx) assertsFor(o *Obligation, seedAll bool) []*Term {
 							}
 							if inst := q.instance(js); !inst.IsTrue() {
 								added = append(added, inst)
+								qstat[q.idx]++
 							}
 						}
 					}
@@ -353,6 +377,16 @@ func prepareObligation(c *VCtx, o *Obligation, mode Mode, opt solveOpts) {
 	}
 	as := c.assertsFor(o, false)
 	gv, names := interestingTerms(as)
+	if mode == ModeInt {
+		// stage 0: bitwise operators on two variables abstracted to uninterpreted functions
+		AbstractBits = true
+		if textA, errA := Query(mode, as, nil); errA == nil && QueryUsedAbstraction && len(textA) < 40<<20 {
+			fileCounter++
+			o.AbstractFile = filepath.Join(opt.workdir, fmt.Sprintf("q%05d_abs.smt2", fileCounter))
+			os.WriteFile(o.AbstractFile, []byte(textA), 0o644)
+		}
+		AbstractBits = false
+	}
 	text, err := Query(mode, as, gv)
 	if o.NQ > 0 {
 		// fallback with every read of every hypothesis as a trigger (used only if the
@@ -422,6 +456,29 @@ func prepareObligation(c *VCtx, o *Obligation, mode Mode, opt solveOpts) {
 func runObligation(o *Obligation, opt solveOpts) {
 	if o.Result != "" {
 		return
+	}
+	if o.AbstractFile != "" {
+		quick := opt.secs
+		if quick > 5 {
+			quick = 5
+		}
+		ra, _ := raceSolvers(o.AbstractFile, quick, false)
+		if !opt.keep {
+			os.Remove(o.AbstractFile)
+		}
+		if ra.answer == "unsat" {
+			o.Result, o.Backend, o.Secs, o.Output = "unsat", ra.backend+"/abs", ra.secs, ra.output
+			if !opt.keep {
+				os.Remove(o.QueryFile)
+				if o.SmallFile != "" {
+					os.Remove(o.SmallFile)
+				}
+				if o.FullFile != "" {
+					os.Remove(o.FullFile)
+				}
+			}
+			return
+		}
 	}
 	best, tried := raceSolvers(o.QueryFile, opt.secs, opt.all)
 	if best.answer != "unsat" && o.FullFile != "" {
